@@ -1,6 +1,9 @@
 # (class id, regex on violation key, what) - reviewed classes of genuine cc6502 defects (see DESIGN.md "Known findings")
 W16 = r'(ha|wa|w2|wb)'
 CLASSES = {
+ 'C17': [
+  ('P01-shift16-rmw', r'(w_shrass|expr/shass/|expr/sh/|rw/cass)', "16-bit shift-assignment (x >>= k, x <<= k) on a variable in split-port RAM is emitted as LSR/ROR/ASL/ROL directly on memory: read-modify-write cycle on the read port"),
+ ],
  'C15': [
   ('R01-shift16', r'^rw/cass/(ha|wa|w2)(<<|>>)=', "16-bit x <<= k / x >>= k and x = x << k give different results (the expression form computes the high byte from the low byte; see C01 K03)"),
   ('R02-unsigned-vs-0', r'^rw/(ifneg|negop|mirror|mirrorset)/(va|wa|X|Y)~(0|65535|255)/', "comparison of an unsigned value against 0 / the type maximum: one of the two equivalent forms is folded with the sign flag (see C01 K09)"),
